@@ -54,7 +54,7 @@ def nontrivial(obs):
 
 
 def run_family(prop, tier, seed, n_quick, n_thorough, gen, oracle, rule, assumptions, propfile=None,
-               ext_gen=None, site_known=None):
+               ext_gen=None, site_known=None, any_kernel_oracle=True):
     """generic flow for the base-family properties"""
     v = C.Verdict(prop, tier, seed)
     gate_ok, ob = C.proof_gate(v, propfile or f"{prop}.v")
@@ -80,6 +80,17 @@ def run_family(prop, tier, seed, n_quick, n_thorough, gen, oracle, rule, assumpt
         stats["kinds"][k["kind"]] = stats["kinds"].get(k["kind"], 0) + 1
         stats["undef_cases"] += 0 if obs[-1]["ok"] else 1
         fails.extend(oracle(k, ops))
+    # the same oracle on all eight modules with float data (no exact model run for these: implementation-side only)
+    n_any = 0
+    if any_kernel_oracle:
+        rng_any = C.make_rng(seed, prop + "-any")
+        for _ in range(max(50, n_cases // 3)):
+            k, ops = B.gen_any_history(rng_any)
+            try:
+                fails.extend(oracle(k, ops))
+                n_any += 1
+            except Exception as e:
+                v.notes.append(f"oracle raised on an any-kernel history: {type(e).__name__}: {str(e)[:80]}")
     codes, bad = flow.coq_corr(prop, "RunBase", strs)
     for b in bad:
         v.notes.append("coq shard failed: " + b[-600:])
@@ -102,6 +113,7 @@ def run_family(prop, tier, seed, n_quick, n_thorough, gen, oracle, rule, assumpt
         "rule": rule,
         "traces_validated_against_impl": sum(1 for c in codes if c == 0),
         "distribution": stats,
+        "all_module_oracle_histories": n_any,
         "samples": summaries[:2],
     })
     v.assumptions = assumptions
